@@ -322,9 +322,17 @@ def step (s : St) (op : List String) (exts : List (List String)) : St × Option 
     match s.cur with
     | none => (s, some "nopayload")
     | some p =>
-      match forwardF fixedNow s.cfg p with
-      | none => (s, some "nofwd")
-      | some r => (s, some (evObs (outcomeStr (outcomeOf r)) r))
+      if p.md.id.tid = "" then (s, some "nofwd") else
+      -- the wire order of the re-encoded event is the implementation's choice (Go-map iteration in
+      -- `MarshalMsg`), passed as `ext worder`; accepted when it is a rearrangement of the model's fields
+      let fields := marshalF fixedNow p
+      let ordered := match exts.findSome? (fun e => match e with | ["worder", ks] => some (parseList ks) | _ => none) with
+        | none => fields
+        | some ks =>
+          let picked := ks.filterMap fun k => fields.find? fun kv => kv.1 == k
+          if picked.length == fields.length && ks.eraseDups.length == ks.length then picked else fields
+      let r := ingestBatchF fixedNow s.cfg ordered
+      (s, some (evObs (outcomeStr (outcomeOf r)) r))
   | _ => (s, some "bad-op")
 
 /-! ### monitors (implementation observations + the generated inputs only) -/
@@ -462,7 +470,12 @@ def c20Check (m : MSt) (obs : String) : List Fail :=
           else if (m.path == "jb" || m.path == "js") && cmpStr (maskF64 e.2) == cmpStr (maskF64 kv.2) then
             s!"json-number-not-nearest-float:path={m.path}"
           else tagName kv.2
-        let cls := if m.cfg.sk.contains kv.1 && inKeys.any (caseVariantOf kv.1) then "case-variant-of-key-field" else cls
+        -- a case variant of a key field explains the alteration only when it is the other field's value
+        -- that was forwarded, and nothing listed above already explains it
+        let js := m.path == "jb" || m.path == "js"
+        let sameAs (a b : Val) : Bool := cmpStr a == cmpStr b || (js && cmpStr (maskF64 a) == cmpStr (maskF64 b))
+        let cls := if cls == tagName kv.2 && m.cfg.sk.contains kv.1
+            && m.fs.any (fun o => caseVariantOf kv.1 o.1 && sameAs e.2 o.2) then "case-variant-of-key-field" else cls
         mk s!"C20:value-altered:{cls}" s!"client field {encTok kv.1} sent as {want} re-encoded as {cmpStr e.2}"
     let added := out.flatMap fun e =>
       if reserved e.1 || inKeys.contains e.1 then [] else
